@@ -299,6 +299,50 @@ def _stm_begin_issued(cfg, i, path):
     return st['after_stm'][0] == began and began == cfg['immediate']
 
 
+# ------------------------------------------------------------------ Database.disconnect with a session left open outside db_session (interactive use)
+def _dd_configs(tier):
+    return [dict(provider=k, session=ss) for k in ('generic', 'sqlite', 'postgres') for ss in ('none', 'read only, no transaction', 'in a transaction')]
+
+
+def _dd_case(cfg, values):
+    def call():
+        st = cur().state
+        p = _mk_provider(cfg['provider'], False, st)
+        p.paramstyle = 'qmark'
+        db = core.Database(); db.provider = p; db.provider_name = cfg['provider']
+        st.update(db=db, pool=p.pool)
+        import pony
+        mode = pony.MODE; pony.MODE = 'INTERACTIVE'                       # interactive mode (main thread): a session may stay open outside any db_session
+        try:
+            if cfg['session'] != 'none':
+                cache = db._get_cache()
+                if cfg['session'] == 'in a transaction': db._exec_sql('INSERT x', None, False, True)
+                else: db._exec_sql('SELECT x', None, False, False)
+                st['cache'] = cache; st['in_transaction_before'] = cache.in_transaction
+            st['mark'] = len(cur().ghost)
+            db.disconnect()
+        finally: pony.MODE = mode
+        return 'done'
+    return Case(call, {}, [], _session_setup, _session_teardown)
+
+
+def _dd_spec(cfg, i, path):
+    st = path.state
+    cons = st.get('cons', [])
+    if any(c.closed > 1 or c.uses_after_close for c in cons): return False
+    if 'mark' not in st: return None                                      # a fault before disconnect() was called: not this contract's call
+    alive = [c for c in core.local.db2cache.values()] if False else st.get('alive_after')
+    cache = st.get('cache')
+    if path.outcome == 'ret':
+        # nothing of this database is left behind: no session that still refers to a connection, no pooled connection, every connection closed exactly once
+        if cache is not None and (cache.is_alive and cache.connection is not None): return False
+        if st['pool'].con is not None: return False
+        return all(c.closed == 1 for c in cons)
+    # a failing rollback / close is reported; the connection is not left in the pool for the next session, nor in a session
+    if cache is not None and cache.is_alive and cache.connection is not None and cache.connection.closed: return False
+    return True
+
+
 # ------------------------------------------------------------------ Pool.release / drop / disconnect, SQLitePool.drop
 def _pool_configs(tier):
     return [dict(pool=k, op=o) for k in ('Pool', 'SQLitePool-file', 'SQLitePool-memory', 'PGPool') for o in ('release', 'drop', 'disconnect')]
@@ -345,6 +389,8 @@ CONTRACTS = [
               'pony.orm.dbapiprovider:wrap_dbapi_exceptions'],
              _stm_configs, _stm_case, [('lock_held_iff_in_transaction_on_every_exit', _stm_invariant), ('in_transaction_only_after_BEGIN_IMMEDIATE', _stm_begin_issued)],
              allowed_exc=(core.OperationalError, Fault), doc='loop-free; every DB-API call may raise'),
+    Contract('Database.disconnect', ['pony.orm.core:Database.disconnect', 'pony.orm.dbapiprovider:DBAPIProvider.disconnect', 'pony.orm.dbapiprovider:Pool.disconnect', 'pony.orm.core:SessionCache.rollback'],
+             _dd_configs, _dd_case, [('no_session_keeps_a_connection_the_pool_has_closed', _dd_spec)], allowed_exc=(sqlite3.OperationalError, psycopg2.OperationalError, core.DBException, core.OrmError)),
     Contract('Pool.release_drop_disconnect', ['pony.orm.dbapiprovider:Pool.release', 'pony.orm.dbapiprovider:Pool.drop', 'pony.orm.dbapiprovider:Pool.disconnect',
                                               'pony.orm.dbproviders.sqlite:SQLitePool.drop', 'pony.orm.dbproviders.sqlite:SQLitePool.disconnect'],
              _pool_configs, _pool_case, [('connection_pooled_xor_closed_once', _pool_spec)], allowed_exc=(sqlite3.OperationalError, psycopg2.OperationalError, Fault)),
